@@ -360,6 +360,12 @@ def _empymod_fwd(cond_h, cond_v, empymod_inp):
     """
     from empymod import bipole
     aniso = None if cond_v is None else np.sqrt(cond_h/cond_v)
+
+    # empymod normalizes the response for strength <= 0.
+    if empymod_inp.get('strength', 0) < 0:
+        empymod_inp = {**empymod_inp, 'strength': -empymod_inp['strength']}
+        return -bipole(res=1/cond_h, aniso=aniso, **empymod_inp)
+
     return bipole(res=1/cond_h, aniso=aniso, **empymod_inp)
 
 
